@@ -52,6 +52,7 @@ type SolveOpts struct {
 	RequireTwo  bool   // thorough: every obligation must be unsat on two back ends
 	KeepQueries bool
 	MaxRetry    int
+	noParts     bool
 }
 
 func runSolver(ctx context.Context, s solverSpec, file string, timeoutMs int) (answer string, out string) {
@@ -115,7 +116,8 @@ func Discharge(obls []*Obligation, opts SolveOpts) []*Outcome {
 		}
 		retried++
 		ropts := opts
-		ropts.TimeoutMs = opts.TimeoutMs * 4
+		ropts.TimeoutMs = opts.TimeoutMs * 3
+		ropts.noParts = true
 		if o.File != "" {
 			os.Remove(o.File)
 		}
@@ -129,7 +131,7 @@ func Discharge(obls []*Obligation, opts SolveOpts) []*Outcome {
 
 func dischargeOne(i int, o *Obligation, opts SolveOpts) *Outcome {
 	res := dischargeGoal(i, o, o.Goal, "", opts)
-	if res.Result == "proved" || o.MustFail || len(o.Parts) < 2 || res.Result == "refuted" {
+	if res.Result == "proved" || o.MustFail || len(o.Parts) < 2 || res.Result == "refuted" || opts.noParts {
 		return res
 	}
 	// fallback: prove the conjuncts one by one
@@ -147,9 +149,7 @@ func dischargeOne(i int, o *Obligation, opts SolveOpts) *Outcome {
 			} else if r.File != "" {
 				os.Remove(r.File)
 			}
-			if r.Result == "refuted" {
-				break
-			}
+			break // one failing conjunct is enough to name
 		}
 	}
 	if allOK {
